@@ -960,7 +960,9 @@ class C01(Property):
             elif o in ('add', 'set'):
                 toks.append('%s:%d:%d' % (o, op[1], op[2]))
             elif o == 'addlist':
-                toks.append('addlist%s:%d:%s' % ('x' if op[2] == 'x' else '', op[1], ','.join(map(str, op[3])) or '-'))
+                # `L`: the argument is a list OBJECT of the caller's, which the caller writes to after the call
+                toks.append('addlist%s:%d:%s' % ({'x': 'x', 'l': 'L'}.get(op[2], ''), op[1],
+                                                  ','.join(map(str, op[3])) or '-'))
             elif o == 'del':
                 toks.append('del:%d' % op[1])
             elif o in ('upd', 'ext'):
@@ -1343,6 +1345,8 @@ class C01(Property):
         d['vc'] = rd(lambda: [int(p in vk) for p in probes])
         d['vic'] = rd(lambda: [[int((p, v) in vi) for v in vforms] for p in probes])
         d['vvc'] = rd(lambda: [int(v in vv) for v in vforms])
+        # the storage once more, AFTER everything above was scribbled on (ownership layer of the model: `OW`)
+        d['ow'] = rd(lambda: sorted([cx.kid(k), [cx.vid(v) for v in vs]] for k, vs in s.todict(multi=True).items()))
         d['repr'] = rd(lambda: int(repr(s) == '%s([%s])' % (type(s).__name__, ', '.join(
             repr((k, v)) for k, v in s.items(multi=True)))))
         d['cnt'] = rd(lambda: type(s.counts()) is type(s))
@@ -1421,6 +1425,7 @@ class C01(Property):
                   'VV' + e(d['vv'], self._nats), 'VI' + e(d['vi'], self._pairs), 'VC' + e(d['vc'], bits),
                   'VIC' + e(d['vic'], lambda ll: ''.join(bits(l) for l in ll)), 'VVC' + e(d['vvc'], bits)]
             f.append('T' + e(d['t'], self._pairs))
+            f.append('OW' + e(d['ow'], lambda l: ','.join('%s=%s' % (k, self._vals(vs)) for k, vs in l)))
             recs.append(' '.join(f))
         return ';'.join(recs)
 
@@ -1693,6 +1698,7 @@ class C01(Property):
             'g0': [last.get(k, NONE_V) for k in range(NK)],
             'gld': [self._vals_of(L, k) if k in last else 'D' for k in range(NK)],
             'bool': int(bool(L)), 'repr': 1, 'cnt': True, 'eqself': [1, 0],
+            'ow': sorted([k, self._vals_of(L, k)] for k in keys),
             'vk': keys, 'vl': [len(keys)] * 3, 'vv': [last[k] for k in keys], 'vi': items,
             'vc': [int(k in last) for k in range(NK)],
             'vic': [[int(k in last and last[k] == v) for v in range(5)] for k in range(NK)],
